@@ -1,1 +1,197 @@
-// harnesses for table (none yet)
+// C09 — nearest-node enumeration; C08 — table shape (placement, split); C12 — hearsay admission.
+use super::*;
+use crate::bucket::verif::symbolic_bucket;
+use crate::node::verif::symbolic_slot_with;
+use crate::verif::{clock, concrete_addr_v4};
+
+// ---------------------------------------------------------------------------------------------
+// C09 (a): `next_bucket_index`, one symbolic step of the alternating walk.
+//
+// V(s, c) = set of bucket indices visited when the walk that started at `s` stands at `c`:
+//   every j with |j - s| < |c - s|, plus c itself, plus (if c is left of s) its mirror 2s - c.
+// Step obligations (together with V(s, s) = {s} they give, by induction over the walk, that every
+// index in [0, 160) is visited exactly once, nearest first, for every start including 160):
+//   next = Some(n)  =>  n < 160, n not in V(s, c), and V(s, n) = V(s, c) + {n}
+//   next = None     =>  V(s, c) contains all of [0, 160)
+// ---------------------------------------------------------------------------------------------
+
+fn dist(a: usize, b: usize) -> usize {
+    if a > b {
+        a - b
+    } else {
+        b - a
+    }
+}
+
+fn visited(s: usize, c: usize, j: usize) -> bool {
+    if j >= MAX_BUCKETS {
+        return false;
+    }
+    dist(j, s) < dist(c, s) || j == c || (c < s && j == s + (s - c))
+}
+
+#[kani::proof]
+fn c09_next_bucket_index_step() {
+    let s: usize = kani::any();
+    let c: usize = kani::any();
+    let i: usize = kani::any();
+    kani::assume(s <= MAX_BUCKETS);
+    // a walk position is the start itself or an index inside the table
+    kani::assume(c == s || c < MAX_BUCKETS);
+    kani::assume(i < MAX_BUCKETS);
+    match next_bucket_index(MAX_BUCKETS, s, c) {
+        Some(n) => {
+            assert!(n < MAX_BUCKETS, "C09: walk leaves the table");
+            assert!(!visited(s, c, n), "C09: walk visits a bucket index twice");
+            assert!(
+                visited(s, n, i) == (visited(s, c, i) || i == n),
+                "C09: walk skips a bucket index or is not nearest-first"
+            );
+            // nearest first: nothing unvisited is strictly nearer to the start than n
+            if !visited(s, c, i) {
+                assert!(dist(i, s) >= dist(n, s), "C09: a nearer bucket index is visited later");
+            }
+        }
+        None => {
+            assert!(visited(s, c, i), "C09: walk ends before every bucket index was visited");
+        }
+    }
+    kani::cover!(s == MAX_BUCKETS && c == s, "start at 160 (target = own id)");
+    kani::cover!(c < s && s + (s - c) + 1 >= MAX_BUCKETS, "right side exhausted");
+}
+
+/// The whole walk from a symbolic start: it makes exactly as many moves as there are other bucket
+/// indices (159 from a start inside the table, 160 from start 160) and then ends. With the step
+/// harness (no index twice) this mechanises "every index exactly once".
+#[kani::proof]
+#[kani::unwind(163)]
+fn c09_walk_length() {
+    let s: usize = kani::any();
+    kani::assume(s <= MAX_BUCKETS);
+    let mut c = s;
+    let mut moves = 0usize;
+    let mut ended = false;
+    let mut k = 0;
+    while k < 161 {
+        match next_bucket_index(MAX_BUCKETS, s, c) {
+            Some(n) => {
+                c = n;
+                moves += 1;
+            }
+            None => {
+                ended = true;
+                break;
+            }
+        }
+        k += 1;
+    }
+    assert!(ended, "C09: walk does not end after visiting every bucket index");
+    assert!(moves == if s < MAX_BUCKETS { MAX_BUCKETS - 1 } else { MAX_BUCKETS }, "C09: walk visits a wrong number of bucket indices");
+    kani::cover!(true, "end of harness reached");
+}
+
+// ---------------------------------------------------------------------------------------------
+// Directly constructed tables (local id = 0...0, so a node's ideal bucket index is the number of
+// leading zero bits of its id).
+// ---------------------------------------------------------------------------------------------
+
+/// ideal bucket index of slot j in bucket i of a table with `nb` buckets
+fn slot_ideal(nb: usize, i: usize, j: usize) -> usize {
+    if i + 1 < nb {
+        i
+    } else {
+        // last bucket: assorted nodes, ideal indices >= nb - 1, not sorted, with repeats
+        const EXTRA: [usize; 8] = [0, 0, 1, 2, 5, 60, 120, 1];
+        let v = (nb - 1) + EXTRA[j];
+        if v > 151 {
+            151
+        } else {
+            v
+        }
+    }
+}
+
+fn slot_key(i: usize, j: usize) -> u8 {
+    (i * 8 + j) as u8
+}
+
+/// Table with `nb` buckets whose every slot holds its own concrete identity (placement invariant
+/// respected) in an arbitrary state (coarse ages), see bucket.rs / DESIGN.md F21.
+fn symbolic_table(nb: usize) -> RoutingTable {
+    symbolic_table_n(nb, 8)
+}
+
+/// as above, only the first `nsym` slots of each bucket are arbitrary; the rest are empty placeholders
+fn symbolic_table_n(nb: usize, nsym: usize) -> RoutingTable {
+    let mut t = RoutingTable::new(NodeId::from([0u8; 20]));
+    t.buckets.clear();
+    let mut i = 0;
+    while i < nb {
+        let mut b = Bucket::new();
+        let mut j = 0;
+        while j < 8 {
+            let id = crate::verif::id_with_prefix(slot_ideal(nb, i, j), slot_key(i, j));
+            if j < nsym {
+                let n = symbolic_slot_with(id, concrete_addr_v4(slot_key(i, j)), true);
+                crate::bucket::verif::set_slot(&mut b, j, n);
+            }
+            j += 1;
+        }
+        t.buckets.push(b);
+        i += 1;
+    }
+    t
+}
+
+/// C09 (b): enumerate the nearest nodes of a target whose shared prefix with the local id is `s`.
+fn closest(nb: usize, s: usize) {
+    closest_n(nb, s, 8)
+}
+
+fn closest_n(nb: usize, s: usize, nsym: usize) {
+    clock::start_fixed();
+    let table = symbolic_table_n(nb, nsym);
+    let target = crate::verif::id_with_prefix(s, 200);
+    // reference: which slots are live
+    let mut live = [false; 24];
+    let mut n_live = 0usize;
+    let mut i = 0;
+    while i < nb {
+        let mut j = 0;
+        for node in table.buckets[i].iter() {
+            if node.status() != NodeStatus::Bad {
+                live[i * 8 + j] = true;
+                n_live += 1;
+            }
+            j += 1;
+        }
+        i += 1;
+    }
+    let mut seen = [false; 24];
+    let mut yielded = 0usize;
+    let mut last_dist = 0usize;
+    let mut it = table.closest_nodes(target);
+    let mut k = 0;
+    while k < nb * 8 + 1 {
+        match it.next() {
+            Some(node) => {
+                let key = (node.id().as_ref()[19] - 1) as usize;
+                assert!(key < nb * 8, "C09: enumeration yields a node that is not in the table");
+                assert!(live[key], "C09: enumeration yields a node in bad standing");
+                assert!(!seen[key], "C09: enumeration yields a node twice");
+                seen[key] = true;
+                yielded += 1;
+                let d = dist(slot_ideal(nb, key / 8, key % 8), s);
+                assert!(d >= last_dist, "C09: a node of a nearer bucket is yielded after a farther one");
+                last_dist = d;
+            }
+            None => break,
+        }
+        k += 1;
+    }
+    assert!(yielded == n_live, "C09: enumeration does not visit every live node exactly once");
+    kani::cover!(n_live == nb * 8, "all nodes live");
+    kani::cover!(n_live == 0, "no node live");
+}
+
+
